@@ -40,7 +40,7 @@ ASSUMPTIONS = [
 ]
 TRUSTED = ["tracemalloc / NumPy allocation tracking; zarr 3.x and numcodecs as installed (measured peaks depend on their versions)"]
 
-W = int(os.environ.get("C03_WORKERS", "6"))
+W = int(os.environ.get("C03_WORKERS", "8"))
 CHUNK = 4_000_000
 
 
@@ -258,8 +258,11 @@ def corr_plans(ctx, n):
 
 
 def corr(ctx):
+    t0 = ctx.elapsed()
     corr_pure(ctx, ctx.budget(300, 3000))
+    t1 = ctx.elapsed()
     corr_plans(ctx, ctx.budget(110, 900))
+    ctx.notes.append("timing: build+audit %.0fs, corr pure %.0fs, corr plans %.0fs" % (t0, t1 - t0, ctx.elapsed() - t1))
 
 
 # ---------------------------------------------------------------------------------------------------------
@@ -341,6 +344,17 @@ def classify(r, o, twin):
         if excess <= bound + tol:
             return "unstack-loads-k-blocks"
         return None
+    comp_slack = (src_max + out_max) if case["compressor"] == "default" else 0
+    itemsize = __import__("numpy").dtype(case["dtype"]).itemsize
+    # (1b) kernels whose NumPy implementation makes temporaries larger than the declared extra
+    fkw = d.get("func_kw") or {}
+    is_var_kernel = d.get("fused") or (d.get("func") == "_partial_reduce" and "_var_func" in fkw.values())
+    if case["op"].split("_")[0] in ("var", "std") and itemsize < 8 and is_var_kernel:
+        # _var_func: `nxp.square(a - mu)` with float64 mu = two float64 temporaries of the block
+        return "var-float64-temporaries" if excess <= 4 * src_max + comp_slack + tol else None
+    if case["op"] == "isin" and case["dtype"].startswith(("int", "uint")) and itemsize < 8 and (d.get("fused") or d.get("func") == "_isin"):
+        # np.isin (table method for small value ranges): intp-sized temporaries of the block
+        return "isin-kernel-temporaries" if excess <= 4 * src_max + comp_slack + tol else None
     # (2) compressed + incompressible chunks: the zarr codec pipeline holds one more chunk-sized buffer per read (and per
     #     written region) than BufferCopies(read=1, write=1) accounts for; the same case without compressor stays within bounds
     if case["compressor"] == "default" and twin is not None and not twin.get("error"):
@@ -362,11 +376,20 @@ def classify(r, o, twin):
         if excess <= 2 * src_max + out_max + tol:
             return "fused-stream-successor"
         return None
-    # (4) unfused map_selection (index with step, …): output buffer + previous block + block being read
-    if not d.get("fused") and keys["streams"] and d.get("func") in ("wrap", "_assemble_index_chunk") and out_max < src_max:
-        if excess <= (src_max - out_max) + tol:
-            return "index-stream-keeps-previous-block"
+    if d.get("fused"):
         return None
+    if keys["streams"] and d.get("func") in ("wrap", "_assemble_index_chunk"):
+        # (5) map_overlap: the assembled block includes the halo (depth), the projection uses the plain chunk
+        if case["op"].startswith("map_overlap"):
+            if excess <= 0.75 * src_max + tol:
+                return "map-overlap-halo-unaccounted"
+            return None
+        # (6) map_selection (index with step / integer array, …): output buffer + previous block + block being read,
+        #     no extra declared: exceeds when the output block is smaller than a source block and reads >= 2 of them
+        if max(keys["streams"]) >= 2 and out_max < src_max:
+            if excess <= (src_max - out_max) + tol:
+                return "index-stream-keeps-previous-block"
+            return None
     return None
 
 
@@ -391,6 +414,9 @@ def evaluate(ctx, results, twins=None):
             ctx.dist["ratio:%s" % ("<0.5" if o["peak"] < 0.5 * o["projected"] else "<0.9" if o["peak"] < 0.9 * o["projected"] else "<=1" if o["peak"] <= o["projected"] else ">1")] += 1
             if o["peak"] > o["projected"]:
                 key = classify(r, o, twins.get(i))
+                ctx.extra.setdefault("oracle_failures_detail", []).append(
+                    {"key": key, "case": r["case"], "node": o["name"], "op_name": o["op_name"], "projected": o["projected"], "peak": o["peak"],
+                     "first_peak": o["first_peak"], "desc": d})
                 ctx.fail("task of %s (%s) allocated %d bytes at peak, projected_mem is %d (ratio %.2f)" %
                          (o["name"], r["case"]["op"], o["peak"], o["projected"], o["peak"] / o["projected"]), small_case(r, o), key=key)
 
@@ -408,10 +434,12 @@ def measure(ctx, cases):
 
 
 def oracle(ctx):
-    n = ctx.budget(40, 420)
+    n = ctx.budget(24, 260)
     cases = sample_cases(ctx, n)
     cases.append(witness_unstack())
+    t0 = ctx.elapsed()
     measure(ctx, cases)
+    ctx.notes.append("timing: oracle %.0fs for %d cases" % (ctx.elapsed() - t0, len(cases)))
     ctx.notes.append("reserved_mem=%d (calibrated non-data peak of trivial tasks < 100 kB), chunk ~%d bytes, %d workers" % (memtrace.RESERVED, CHUNK, W))
 
 
@@ -432,5 +460,7 @@ def search(ctx):
                 for fuse in (False, True):
                     tight.append({"op": opn, "geom": g, "dtype": dt, "fuse": fuse, "compressor": "none", "chunk_bytes": CHUNK,
                                   "input": "zarr", "data": "random", "seed": ctx.seed})
-    ctx.rng.shuffle(tight)
-    measure(ctx, tight[: ctx.budget(90, 300)])
+    first = [c for c in tight if c["geom"] == "square"]
+    rest = [c for c in tight if c["geom"] != "square"]
+    ctx.rng.shuffle(rest)
+    measure(ctx, first if ctx.tier == "quick" else first + rest[:120])
